@@ -32,7 +32,11 @@ Part == << <<"w", <<NText("w" \o Wide)>>>>,
            <<"ia", <<NText("a"), Include(S("ib"), "none", NilE, "", <<>>)>>>>,
            <<"ib", <<NText("b"), RenderT(S("ia"), "none", NilE, "", <<>>)>>>>,
            <<"xa", <<Extends("xb"), Block("z", FALSE, <<NText("za")>>)>>>>,
-           <<"xb", <<Extends("xa"), Block("z", FALSE, <<NText("zb")>>)>>>> >>
+           <<"xb", <<Extends("xa"), Block("z", FALSE, <<NText("zb")>>)>>>>,
+           \* a template that extends a layout and includes itself from the block it overrides
+           <<"lay", <<NText("["), Block("z", FALSE, <<NText("lz")>>), NText("]")>>>>,
+           <<"xs", <<Extends("lay"), Block("z", FALSE, <<NText("s"), Include(S("xs"), "none", NilE, "", <<>>)>>)>>>>,
+           <<"xr", <<Extends("lay"), Block("z", FALSE, <<NText("r"), RenderT(S("xr"), "none", NilE, "", <<>>)>>)>>>> >>
 MCPartials == Part
 MCData == { << <<<<"arr", Arr(<<IntV(1), IntV(2), IntV(3)>>)>>, <<"s", Str("d" \o Wide \o "\r\n")>>>>, <<>>, <<>>, <<>> >> }
 MCCfgs == {[Cfg("+", sup, FALSE, "default") EXCEPT !.shopify = TRUE] : sup \in BOOLEAN}
@@ -77,7 +81,8 @@ NsProgs == {RenderT(S("n1"), "none", NilE, "", <<>>), RenderT(S("n2"), "none", N
             ForN("i", R12, <<Assign("e", P(V("i"))), RenderT(S("n2"), "none", NilE, "", <<>>)>>)}
 Cycles == {Include(S("self"), "none", NilE, "", <<>>), RenderT(S("ra"), "none", NilE, "", <<>>), Include(S("ia"), "none", NilE, "", <<>>),
            RenderT(S("self"), "none", NilE, "", <<>>), Include(S("xa"), "none", NilE, "", <<>>), RenderT(S("xa"), "none", NilE, "", <<>>),
-           ForN("i", R12, <<RenderT(S("ra"), "none", NilE, "", <<>>)>>)}
+           ForN("i", R12, <<RenderT(S("ra"), "none", NilE, "", <<>>)>>),
+           Include(S("xs"), "none", NilE, "", <<>>), RenderT(S("xs"), "none", NilE, "", <<>>), Include(S("xr"), "none", NilE, "", <<>>)}
 
 MCPoolAt(i) ==
   CASE Variant = "output" -> OutLeaves
